@@ -294,4 +294,32 @@ mod proofs {
         }
         kani::cover!(s == 86_399 && ms == 86_399_999);
     }
+
+    // ---------------------------------------------------------------- typed NULL literals
+    /// a typed NULL literal (payload None) never turns into a non-NULL value: the coercion either refuses it or yields
+    /// a NULL -- for every numeric source variant and every numeric target type
+    #[kani::proof]
+    #[kani::unwind(12)]
+    fn null_literals_never_become_values() {
+        // all 10 x 10 (source variant, target type) pairs, enumerated concretely (a symbolic pair makes CBMC clone every
+        // String-carrying variant symbolically: out of memory, measured)
+        let mut some = 0u32; let mut none = 0u32;
+        for si in 0..10u8 { for ti in 0..10u8 {
+            let src = match si {
+                0 => ScalarValue::Int8(None), 1 => ScalarValue::Int16(None), 2 => ScalarValue::Int32(None), 3 => ScalarValue::Int64(None),
+                4 => ScalarValue::UInt8(None), 5 => ScalarValue::UInt16(None), 6 => ScalarValue::UInt32(None), 7 => ScalarValue::UInt64(None),
+                8 => ScalarValue::Float32(None), _ => ScalarValue::Float64(None) };
+            let ty = match ti {
+                0 => DataType::Int8, 1 => DataType::Int16, 2 => DataType::Int32, 3 => DataType::Int64,
+                4 => DataType::UInt8, 5 => DataType::UInt16, 6 => DataType::UInt32, 7 => DataType::UInt64,
+                8 => DataType::Float32, _ => DataType::Float64 };
+            match safe_coerce_scalar(&src, &ty) {
+                None => none += 1,
+                Some(v) => { some += 1; assert!(matches!(v, ScalarValue::Int8(None) | ScalarValue::Int16(None) | ScalarValue::Int32(None) | ScalarValue::Int64(None)
+                    | ScalarValue::UInt8(None) | ScalarValue::UInt16(None) | ScalarValue::UInt32(None) | ScalarValue::UInt64(None) | ScalarValue::Float32(None) | ScalarValue::Float64(None) | ScalarValue::Null),
+                    "a NULL literal became a value"); }
+            }
+        } }
+        kani::cover!(some > 0); kani::cover!(none > 0);
+    }
 }
